@@ -18,6 +18,17 @@ class Clearer:
     def __init__(self):
         self.fcache = {}     # id -> (keepalive, num, den or None)
         self.bcache = {}
+        self.sqrt_map = {}   # id of a sqrt-contract variable y -> (y, radicand e) with the assumption y*y == e
+
+    def _sq(self, a, b):
+        """a*b, using y*y = radicand for sqrt-contract variables (keeps sqrt out of products of scaled terms)"""
+        if a.get_id() == b.get_id():
+            hit = self.sqrt_map.get(a.get_id())
+            if hit is not None:
+                n, d = self.frac(hit[1])
+                if d is None:
+                    return n
+        return a * b
 
     # ---- arithmetic terms -> (num, den|None)
     def frac(self, e):
@@ -70,9 +81,9 @@ class Clearer:
                 return e, None
             num, den = fr[0]
             for (n2, d2) in fr[1:]:
-                num = num * n2
+                num = self._sq(num, n2)
                 if d2 is not None:
-                    den = d2 if den is None else den * d2
+                    den = d2 if den is None else self._sq(den, d2)
             return num, den
         if kind == z3.Z3_OP_DIV:
             n1, d1 = self.frac(ch[0])
